@@ -145,6 +145,28 @@ func (c *Ctx) rangeLookupSearchShape(f *ssa.Function) (string, bool) {
 		}
 		return bo.Op == token.QUO && k == 2 || bo.Op == token.SHR && k == 1
 	}
+	// the last index of the table: len(t)-1, or 2*(len(t)/2)-1
+	isLast := func(v ssa.Value) bool {
+		bo, ok := v.(*ssa.BinOp)
+		if !ok || bo.Op != token.SUB {
+			return false
+		}
+		if k, isK := constIntArg(bo.Y); !isK || k != 1 {
+			return false
+		}
+		if lc, isC := bo.X.(*ssa.Call); isC && isBuiltinCall(lc, "len") && param(lc.Call.Args[0]) == tab {
+			return true
+		}
+		if m, isM := bo.X.(*ssa.BinOp); isM && m.Op == token.MUL {
+			if k, isK := constIntArg(m.X); isK && k == 2 && isPairs(m.Y) {
+				return true
+			}
+			if k, isK := constIntArg(m.Y); isK && k == 2 && isPairs(m.X) {
+				return true
+			}
+		}
+		return false
+	}
 	if !isPairs(search.Call.Args[0]) {
 		return "the search does not run over the len(t)/2 pairs of the table", true
 	}
@@ -247,6 +269,13 @@ func (c *Ctx) rangeLookupSearchShape(f *ssa.Function) (string, bool) {
 						if k0, isK0 := constIntArg(idx); isK0 && k0 == 0 && op == token.GTR {
 							sound = true // t[0] > code
 						}
+						if isLast(idx) && op == token.LSS {
+							sound = true // t[last] < code: beyond the end of the last range
+						}
+					}
+					// no pairs at all: len(t)/2 == 0
+					if k, isK := constIntArg(bo.Y); isK && k == 0 && bo.Op == token.EQL && isPairs(bo.X) {
+						sound = true
 					}
 				}
 				if !sound {
